@@ -33,6 +33,40 @@ func runC17(c *Ctx) {
 	if send == nil || onResp == nil || onReq == nil || request == nil || respond == nil || newResp == nil {
 		return
 	}
+	// ---- R13 a request ends with a reply or an error, never with neither: the retry loop is left
+	// — other than by its own counter running out, which happens only after failed attempts —
+	// only after an attempt was made (the exit is dominated by the send). Leaving before the
+	// first attempt returns (nil, nil): RequestFrom dereferences the nil response.
+	{
+		n := 0
+		sends := CallsIn(request, "(*p2p.MessageProtocol).sendRequestMessage")
+		for _, li := range naturalLoops(request) {
+			var sendIn ssa.Instruction
+			for _, sc := range sends {
+				if sc.Fn == request && li.Blocks[sc.Call.Block()] {
+					sendIn = sc.Call
+				}
+			}
+			if sendIn == nil {
+				continue
+			}
+			for b := range li.Blocks {
+				if b == li.Header {
+					continue
+				}
+				for _, sx := range b.Succs {
+					if li.Blocks[sx] {
+						continue
+					}
+					n++
+					last := b.Instrs[len(b.Instrs)-1]
+					ok := instrDominates(sendIn, last)
+					c.Require("C17.R13 request-ends-with-reply-or-error", fmt.Sprintf("%s: exit of the retry loop from block %d", FuncKey(request), b.Index), p.InstrPos(last), "the retry loop is left from inside its body only after an attempt was made", ok, "")
+				}
+			}
+		}
+		c.MinInstances("C17.R13 request-ends-with-reply-or-error", n, 2)
+	}
 	// lock rules restricted to the message protocol's functions
 	runLockRulesFuncs(c, "C17", func(fn *ssa.Function) bool {
 		return strings.HasPrefix(FuncKey(fn), "pkg/p2p.(*MessageProtocol).")
